@@ -94,7 +94,12 @@ func genRound(t *rapid.T) Round {
 		if kind == "attests" || kind == "multisign" {
 			n = rapid.IntRange(2, 4).Draw(t, "nk")
 		}
-		r.Reqs = append(r.Reqs, Req{Kind: kind, Keys: genKeys(t, n)})
+		keys := genKeys(t, n)
+		if n >= 2 && rapid.IntRange(0, 9).Draw(t, "odd") == 0 {
+			// a request the ruler refuses early: a key named twice (at a drawn position)
+			keys = append(keys, keys[rapid.IntRange(0, len(keys)-1).Draw(t, "dup_of")])
+		}
+		r.Reqs = append(r.Reqs, Req{Kind: kind, Keys: keys})
 	}
 	// steering: pairs of multi-key requests wait for each other after their first lock
 	if rapid.IntRange(0, 9).Draw(t, "steer") < 8 && len(r.Reqs) >= 2 {
@@ -428,6 +433,17 @@ func TestC15(t *testing.T) {
 		vkit.S.Eval()
 		vkit.S.ClassN("rounds", o.rounds)
 		vkit.S.ClassN("requests", o.requests)
+		for _, rd := range c.Rounds {
+			for _, q := range rd.Reqs {
+				seen := map[int]bool{}
+				for _, k := range q.Keys {
+					if seen[k] {
+						vkit.S.Class("request-naming-a-key-twice")
+					}
+					seen[k] = true
+				}
+			}
+		}
 		if o.overlapDifferentOrder {
 			vkit.S.Nontrivial(c)
 			vkit.S.Class("overlapping-batches-sharing-keys-in-different-order")
